@@ -6,7 +6,7 @@
 //   arrayvec's Zeroize impl   len 0 afterwards (it also zeroes the elements and the spare capacity:
 //                             bytes outside the abstract view are arrayvec's business)
 //   fmt::Formatter::debug_struct / DebugStruct::{field, finish}    ghost log of (name, value) pairs
-// Needs prelude/deps.rs (the ArrayVec model).
+// Needs prelude/deps.rs (the ArrayVec model, `crate::arrayvec::ArrayVec`).
 // ---------------------------------------------------------------------------------------------
 
 // ---- zeroize -------------------------------------------------------------------------------------
